@@ -895,8 +895,24 @@ def ctor_cap_positive(ctx, rule):
             if len(ps) == 1:
                 p = ("param", ps[0])
                 TY.setdefault(p, (64, False))
-                zz = cons_zone(o, terms=(p,))
-                if zz.entails("Le", const(1), p):
+                # the value that ends up in the writer's chunk-size field (the parameter itself, or e.g. max(parameter, 1))
+                def find_writer(v_, d=0):
+                    if is_agg(v_) and v_[2] == R["writer"]:
+                        return v_
+                    if is_agg(v_) and d < 3:
+                        for _, x_ in v_[4]:
+                            w_ = find_writer(x_, d + 1)
+                            if w_ is not None:
+                                return w_
+                    return None
+                wv = find_writer(o.value)
+                capv = agg_get(wv, R["cap_f"]) if wv is not None else p
+                if capv is None:
+                    capv = p
+                if not is_const(capv):
+                    TY.setdefault(capv, (64, False))
+                zz = cons_zone(o, terms=(p, capv))
+                if zz.entails("Le", const(1), capv):
                     ctx.ok(rule, "%s: chunk size >= 1 on the constructing path" % fn)
                 else:
                     ctx.violation(rule, "%s|%s" % (rule, fn), "%s can construct a writer with chunk size 0 (write would then accept 0 bytes forever)" % fn)
